@@ -29,8 +29,19 @@ class Stall(RuntimeError):
 
 
 class Preemptive:
+    FILES = ("multistage.py", "mixed.py", "twolevel_binomial.py",
+             "hrevolve.py", "schedule.py", "basic_schedules.py",
+             "hrevolve_sequences/hrevolve.py",
+             "hrevolve_sequences/revolve.py",
+             "hrevolve_sequences/disk_revolve.py",
+             "hrevolve_sequences/periodic_disk_revolve.py",
+             "hrevolve_sequences/basic_functions.py")
+
     def __init__(self, seed, tasks, p_cold, p_hot, world_kw=None):
         self.rng = random.Random(seed)
+        # swarm: besides the named hot functions, one library file per
+        # world is "hot" as a whole (drawn from the world PRNG)
+        self.hot_file = self.rng.choice(self.FILES)
         self.tasks = tasks
         self.p_cold, self.p_hot = p_cold, p_hot
         self.world_kw = world_kw or {"monitor_counters": False}
@@ -57,7 +68,9 @@ class Preemptive:
     def maybe_switch(self, me, frame):
         self.line_events += 1
         code = frame.f_code
-        p = self.p_hot if code.co_name in HOT else self.p_cold
+        p = self.p_hot if (code.co_name in HOT or
+                           code.co_filename.endswith(self.hot_file)) \
+            else self.p_cold
         if self.rng.random() >= p:
             return
         others = [t for t in sorted(self.alive) if t != me]
